@@ -120,6 +120,24 @@ func goDecrypt(et int32, key, ct []byte, usage uint32) (pt []byte, err error, pa
 			return nil, nil, fmt.Sprintf("DISAGREE entry point %d returns %d octets together with the error %v", i, len(x.pt), x.err)
 		}
 	}
+	// the key's own type decides how it is used: the same octets labelled as a key of another etype (of the same
+	// key size) open nothing, whatever etype the message header names
+	if err == nil {
+		for _, other := range allEtypes {
+			if other == et || specKeyLen(other) != len(key) {
+				continue
+			}
+			var ptx []byte
+			var errx error
+			ko := types.EncryptionKey{KeyType: other, KeyValue: key}
+			panx := Protect(func() {
+				ptx, errx = crypto.DecryptEncPart(types.EncryptedData{EType: et, KVNO: 1, Cipher: append([]byte{}, ct...)}, ko, usage)
+			})
+			if panx == "" && errx == nil {
+				return nil, nil, fmt.Sprintf("DISAGREE a key labelled etype %d opens a message of etype %d through crypto.DecryptEncPart (%d octets)", other, et, len(ptx))
+			}
+		}
+	}
 	if r2, r3 := decRes(pt2, err2, pan2), decRes(pt3, err3, pan3); r2 != first || r3 != first {
 		return nil, nil, fmt.Sprintf("DISAGREE etype method: %s, crypto.DecryptMessage: %s, crypto.DecryptEncPart: %s", cut(first, 40), cut(r2, 40), cut(r3, 40))
 	}
